@@ -4,9 +4,15 @@ package verifharness
 
 import (
 	"fmt"
+	"github.com/basecamp/kamal-proxy/internal/server"
 	"math/rand/v2"
+	"net/http"
+	"net/http/httptest"
+	"os"
+	"path/filepath"
 	"sort"
 	"strings"
+	"sync"
 	"sync/atomic"
 	"testing"
 	"testing/synctest"
@@ -193,10 +199,19 @@ func TestC01(t *testing.T) {
 	run := NewRun(t, "C01")
 	defer run.Finish()
 	n := run.N(480, 24000)
+	// (first: in virtual time a change that makes the proxy wait for a probe under one of its locks only stalls)
+	nl := run.N(3, 12)
+	for k := 0; k < nl; k++ {
+		desc := map[string]any{"idx": k, "kind": "probe-in-flight-at-the-deadline (real time)"}
+		if !run.Mine(k, desc) {
+			continue
+		}
+		c01Live(t, run, k, desc)
+	}
 	for i := 0; i < n; i++ {
 		rng := run.Rand(i)
 		sc := c01Gen(rng, i)
-		if !run.Mine(i, sc) {
+		if !run.Mine(nl+i, sc) {
 			continue
 		}
 		synctest.Test(t, func(t *testing.T) { c01Run(t, run, sc) })
@@ -205,11 +220,101 @@ func TestC01(t *testing.T) {
 	for k := 0; k < run.N(48, 1200); k++ {
 		rng := run.Rand(n + k)
 		sc := c01Same{Idx: k, NT: 1 + rng.IntN(2), Rollout: rng.IntN(3) == 0, BadFor: pick(rng, []int{-1, -1, 0, 1, 2, 4}), DeployTO: pick(rng, []time.Duration{1500 * time.Millisecond, 3500 * time.Millisecond})}
-		if !run.Mine(n+k, sc) {
+		if !run.Mine(nl+n+k, sc) {
 			continue
 		}
 		synctest.Test(t, func(t *testing.T) { c01RunSame(t, run, sc) })
 	}
+}
+
+// c01Live: real time, real sockets (in virtual time code that waits for a probe while holding one of
+// the proxy's locks stops the clock, and all one learns is that it stalled). The new target answers
+// its health probes 2xx - 700ms after they were sent; the deploy timeout is 300ms, the probe timeout
+// 2s: a probe is in flight when the deadline passes and is answered 2xx afterwards. The command
+// reports failure, no client request ever reaches the new target, and the service keeps answering
+// from its old target (or stays absent). The verdict reads outcomes, never the clock.
+func c01Live(t *testing.T, run *Run, idx int, desc any) {
+	run.Eval()
+	RestoreHTTPDefaults()
+	dir, err := os.MkdirTemp("", "vh-c01-")
+	if err != nil {
+		run.Inconclusive("tempdir: %v", err)
+		return
+	}
+	defer os.RemoveAll(dir)
+	var atNew atomic.Int64
+	oldT := httptest.NewServer(http.HandlerFunc(func(w http.ResponseWriter, r *http.Request) { w.Write([]byte("old")) }))
+	defer oldT.Close()
+	newT := httptest.NewServer(http.HandlerFunc(func(w http.ResponseWriter, r *http.Request) {
+		if r.URL.Path == "/up" {
+			time.Sleep(700 * time.Millisecond)
+			w.WriteHeader([]int{200, 204, 299}[idx%3])
+			return
+		}
+		atNew.Add(1)
+		w.Write([]byte("new"))
+	}))
+	defer newT.Close()
+	router := server.NewRouter(filepath.Join(dir, "state.json"))
+	to := server.TargetOptions{HealthCheckConfig: server.HealthCheckConfig{Path: "/up", Interval: 100 * time.Millisecond, Timeout: 2 * time.Second}, ResponseTimeout: 10 * time.Second}
+	fast := to
+	addr := func(s *httptest.Server) string { return strings.TrimPrefix(s.URL, "http://") }
+	existing, rollout := idx%3 != 2, idx%3 == 1
+	if existing {
+		if err := router.DeployService("svc", []string{addr(oldT)}, server.ServiceOptions{}, fast, 10*time.Second, time.Second); err != nil {
+			run.Inconclusive("setup deploy: %v", err)
+			return
+		}
+	}
+	var stop atomic.Bool
+	var wrong atomic.Value
+	var wg sync.WaitGroup
+	for c := 0; c < 4; c++ {
+		wg.Add(1)
+		go func() {
+			defer wg.Done()
+			for !stop.Load() {
+				req := httptest.NewRequest("GET", "http://live.example/x", nil)
+				req.Header.Set("Cookie", "kamal-rollout=u1")
+				rec := httptest.NewRecorder()
+				router.ServeHTTP(rec, req)
+				if existing && (rec.Code != 200 || rec.Body.String() != "old") || !existing && rec.Code != 404 {
+					wrong.CompareAndSwap(nil, fmt.Sprintf("status %d body %q", rec.Code, trunc(rec.Body.String(), 40)))
+				}
+				time.Sleep(5 * time.Millisecond)
+			}
+		}()
+	}
+	var derr error
+	if rollout {
+		derr = router.SetRolloutTargets("svc", []string{addr(newT)}, 300*time.Millisecond, time.Second)
+		if derr == nil {
+			router.SetRolloutSplit("svc", 100, nil)
+		}
+	} else {
+		derr = router.DeployService("svc", []string{addr(newT)}, server.ServiceOptions{}, to, 300*time.Millisecond, time.Second)
+	}
+	time.Sleep(1500 * time.Millisecond) // requests keep coming well after the late probe was answered
+	stop.Store(true)
+	wg.Wait()
+	router.RemoveService("svc")
+	fail := func(sig, format string, a ...any) {
+		run.Violate(sig, fmt.Sprintf(format, a...), desc, nil)
+	}
+	kind := map[bool]string{true: "rollout deploy", false: "deploy"}[rollout]
+	if derr == nil {
+		fail("late-probe-accepted", "%s with a deploy timeout of 300ms onto a target that answers its probes 2xx only after 700ms reported success (a probe was in flight when the deadline passed and was answered afterwards)", kind)
+		return
+	}
+	if n := atNew.Load(); n > 0 {
+		fail("traffic-to-target-of-failed-deploy", "%s failed (%v), yet %d client requests reached its target", kind, derr, n)
+		return
+	}
+	if w := wrong.Load(); w != nil {
+		fail("service-changed-by-failed-deploy", "%s failed (%v); while and after it ran a client got %v (service existed before: %v)", kind, derr, w, existing)
+		return
+	}
+	run.Class(fmt.Sprintf("live|late-probe|existing=%v|rollout=%v", existing, rollout))
 }
 
 // c01Same: the service runs on targets T (all healthy). At 2.3s (between two probes of the running
